@@ -136,13 +136,32 @@ def regex_language(pattern: str, mode: str):
     import re._constants as C  # type: ignore
     import re._parser as P  # type: ignore
 
-    tree = list(P.parse(pattern))
-    alts = [list(a) for a in tree[0][1][1]] if len(tree) == 1 and tree[0][0] is C.BRANCH else [tree]
+    BEG, END = (C.AT_BEGINNING, C.AT_BEGINNING_STRING), (C.AT_END, C.AT_END_STRING)
+
+    def expand(seq):
+        """alternatives of the pattern with groups that span the whole pattern (up to outer anchors) opened up, so that
+        anchors inside such groups become leading/trailing anchors of an alternative: ^(?:^a|b) -> ^^a | ^b"""
+        seq = list(seq)
+        lead, trail = [], []
+        while seq and seq[0][0] is C.AT and seq[0][1] in BEG:
+            lead.append(seq.pop(0))
+        while seq and seq[-1][0] is C.AT and seq[-1][1] in END:
+            trail.insert(0, seq.pop())
+        if len(seq) == 1 and seq[0][0] is C.SUBPATTERN:
+            return [lead + e + trail for e in expand(list(seq[0][1][3]))]
+        if len(seq) == 1 and seq[0][0] is C.BRANCH:
+            return [lead + e + trail for alt in seq[0][1][1] for e in expand(list(alt))]
+        return [lead + seq + trail]
+
     out = []
-    for alt in alts:
-        start = bool(alt) and alt[0][0] is C.AT and alt[0][1] in (C.AT_BEGINNING, C.AT_BEGINNING_STRING)
-        end = bool(alt) and alt[-1][0] is C.AT and alt[-1][1] in (C.AT_END, C.AT_END_STRING)
-        core = alt[(1 if start else 0): (len(alt) - 1 if end else len(alt))]
+    for alt in expand(list(P.parse(pattern))):
+        start = bool(alt) and alt[0][0] is C.AT and alt[0][1] in BEG
+        end = bool(alt) and alt[-1][0] is C.AT and alt[-1][1] in END
+        core = list(alt)
+        while core and core[0][0] is C.AT and core[0][1] in BEG:
+            core.pop(0)
+        while core and core[-1][0] is C.AT and core[-1][1] in END:
+            core.pop()
         if any(op is C.AT for op, _ in core):
             raise ModelGap("inner anchor")
         r = _seq(core)
@@ -914,6 +933,32 @@ class PdProxy:
 
     def __getattr__(self, name):
         return getattr(real_pd, name)
+
+    class _Types:
+        def __getattr__(self, name):
+            return getattr(real_pd.api.types, name)
+
+        @staticmethod
+        def infer_dtype(x, skipna=True):
+            """pandas.api.types.infer_dtype on an object column of strings: 'empty' without rows, 'string' when every
+            element is a string, 'mixed' when a None is present (skipna=False)"""
+            if isinstance(x, (Series, Index)):
+                s = x if isinstance(x, Series) else x.to_series()
+                if s.kind != "str":
+                    raise ModelGap("infer_dtype on non-string shim column")
+                if eng().branch(z3.Not(zor(s.present))):
+                    return "empty"
+                if eng().branch(zor(z3.And(p, n) for p, n in zip(s.present, s.nulls))) and not skipna:
+                    return "mixed"
+                return "string"
+            return real_pd.api.types.infer_dtype(x, skipna=skipna)
+
+    class _Api:
+        def __getattr__(self, name):
+            return getattr(real_pd.api, name)
+
+    _Api.types = _Types()
+    api = _Api()
 
     @staticmethod
     def isna(x):
